@@ -47,7 +47,7 @@ FLOORS = {'*': {**{f'{v}:{o}': 30 for v in ('jsonschema', 'pydantic') for o in (
                 'client-sets-excluded': 30, 'client-sets-context': 30, 'style:view': 100, 'style:async': 100, 'passing:named': 300,
                 'passing:positional': 300, 'refusal-data-checked': 300, 'pydantic:live-exception-in-error': 5,
                 'jsonschema:required-or-additional': 50, 'no-arguments-call': 50, 'twin-registration-calls': 100,
-                'pydantic:default-none-on-non-optional': 50, 'jsonschema:declares-draft-04': 50, 'pydantic:postponed-annotations': 100}}
+                'pydantic:default-none-on-non-optional': 50, 'jsonschema:declares-draft-04': 50, 'pydantic:postponed-annotations': 100, 'dispatcher-from-add_endpoint': 100}}
 
 ABSENT = '__absent__'
 
@@ -56,11 +56,12 @@ ABSENT = '__absent__'
 FRAGMENTS = [
     {'type': 'integer'}, {'type': 'string'}, {'type': 'number', 'minimum': 0, 'maximum': 10}, {'enum': [2, 'a', None]},
     {'type': ['integer', 'null']}, {'type': 'array'}, {'type': 'boolean'}, {},
+    {'type': 'array', 'items': {'type': 'integer'}}, {'type': 'object', 'properties': {'k': {'type': 'array', 'items': {'type': 'string'}}}},
     # draft-04 only (boolean exclusiveMinimum): used when the schema declares that draft
     {'type': 'number', 'minimum': 0, 'exclusiveMinimum': True},
 ]
-N_FRAGMENTS_ANY_DRAFT = 8
-JS_VALUES = [1, -1, 11, 1.5, 'a', '', None, True, [1], {'k': 1}, 2, 1.0, 0, 0.5]
+N_FRAGMENTS_ANY_DRAFT = 10
+JS_VALUES = [1, -1, 11, 1.5, 'a', '', None, True, [1], {'k': 1}, 2, 1.0, 0, 0.5, [1, 'x'], [[1]], {'k': ['a', 2]}, {'k': ['a']}, [], {}]
 DRAFT = {'declared': None}       # the draft the schema of the current case declares through "$schema" (None: the validator's default)
 
 
@@ -86,6 +87,12 @@ def frag_ok(frag, v):
         types = frag['type'] if isinstance(frag['type'], list) else [frag['type']]
         t = js_type(v)
         if not (t in types or (t == 'integer' and 'number' in types)):
+            return False
+    if 'items' in frag and isinstance(v, (list, tuple)):
+        if not all(frag_ok(frag['items'], x) for x in v):
+            return False
+    if 'properties' in frag and isinstance(v, dict):
+        if not all(frag_ok(sub, v[k]) for k, sub in frag['properties'].items() if k in v):
             return False
     if 'enum' in frag:
         if isinstance(v, bool) or not any(type(v) is type(e) and v == e for e in frag['enum']):
@@ -195,6 +202,21 @@ def render(params, with_ctx, skip, style, annotate):
     return head + '\n' + body
 
 
+def endpoint_dispatcher(via, is_async):
+    """the dispatcher an integration hands out for an additional endpoint"""
+    if via == 'flask-endpoint' and not is_async:
+        from pjrpc.server.integration import flask as integ
+        return integ.JsonRPC('/rpc').add_endpoint('/sub')
+    if via == 'aiohttp-endpoint' and is_async:
+        import aiohttp.web
+        from pjrpc.server.integration import aiohttp as integ
+        return integ.Application('/rpc', app=aiohttp.web.Application()).add_endpoint('/sub')
+    return None
+
+
+VIA = {'via': None}
+
+
 def build(params, with_ctx, skip, style, validator, deco_kwargs, annotate, postponed=False):
     src = render(params, with_ctx, skip, style, annotate)
     ns = dict(NS, LOG=[], VIEWS=[], __name__='vmon_c14_programs')
@@ -214,7 +236,7 @@ def build(params, with_ctx, skip, style, validator, deco_kwargs, annotate, postp
         src = 'from __future__ import annotations\n' + src
     exec(compile(src, '<vmon_c14_programs>', 'exec', dont_inherit=True), ns)
     is_async = style == 'async'
-    disp = (pjrpc.server.AsyncDispatcher if is_async else pjrpc.server.Dispatcher)()
+    disp = endpoint_dispatcher(VIA['via'], is_async) or (pjrpc.server.AsyncDispatcher if is_async else pjrpc.server.Dispatcher)()
     if style == 'view':
         validator.validate(ns['View'].f, **deco_kwargs)
         reg = pjrpc.server.MethodRegistry()
@@ -319,8 +341,11 @@ def _safe(runs):
 
 # ---- JSON-schema programs ----------------------------------------------------------------------------
 
-def run_js(ctx, params, frags, required, additional, with_ctx, skip, style, draft=None):
+def run_js(ctx, params, frags, required, additional, with_ctx, skip, style, draft=None, via=None):
     plist = [(n, k, d, None) for n, k, d in params]
+    VIA['via'] = via
+    if via:
+        ctx.hit('dispatcher-from-add_endpoint')
     DRAFT['declared'] = draft
     schema = {'type': 'object', 'properties': {p[0]: FRAGMENTS[f] for p, f in zip(params, frags)}}
     if draft == 4:
@@ -439,8 +464,11 @@ def js_cases(ctx, plist, frags, with_ctx, skip):
 
 # ---- pydantic programs -----------------------------------------------------------------------------------
 
-def run_pd(ctx, params, with_ctx, skip, style, coerce, postponed=False):
+def run_pd(ctx, params, with_ctx, skip, style, coerce, postponed=False, via=None):
     """params: [(name, kind, has_default, annotation)]"""
+    VIA['via'] = via
+    if via:
+        ctx.hit('dispatcher-from-add_endpoint')
     if postponed:
         ctx.hit('pydantic:postponed-annotations')
     plist = [tuple(p) for p in params]
@@ -577,7 +605,8 @@ def gen(ctx):
             required = [] if k % 3 else [rng.choice(names)]
             additional = [None, False, True][k % 3]
             yield 'js', dict(params=[list(p) for p in ps], frags=frags, required=required, additional=additional,
-                             with_ctx=bool(k % 2), skip=bool((k // 2) % 2), style=('def', 'async', 'view', 'def')[(k // 4) % 4], draft=draft)
+                             with_ctx=bool(k % 2), skip=bool((k // 2) % 2), style=('def', 'async', 'view', 'def')[(k // 4) % 4], draft=draft,
+                             via=(None, None, 'flask-endpoint', 'aiohttp-endpoint')[(k // 3) % 4])
         for _ in range(reps * 2):
             k += 1
             plist = []
@@ -591,7 +620,8 @@ def gen(ctx):
                         a = rng.choice(['str', 'Optional[int]'])       # defaults must conform to the annotation
                 plist.append([n, kind, dflt, a])
             yield 'pd', dict(params=plist, with_ctx=bool(k % 2), skip=bool((k // 2) % 2),
-                             style=('def', 'async', 'view', 'def')[k % 4], coerce=bool((k // 4) % 2), postponed=(k % 3 == 0))
+                             style=('def', 'async', 'view', 'def')[k % 4], coerce=bool((k // 4) % 2), postponed=(k % 3 == 0),
+                             via=(None, 'flask-endpoint', None, 'aiohttp-endpoint', None)[(k // 5) % 5])
     # every annotation alone, both coercion modes, every table entry
     for a in anns:
         for coerce in (True, False):
@@ -602,7 +632,7 @@ def gen(ctx):
                 if not a.startswith('Optional'):
                     yield 'pd', dict(params=[['a', 'PK', 'none', a], ['b', 'KO', 'none', a]], with_ctx=False, skip=False, style=style, coerce=coerce)
     for style in ('def', 'view'):
-        for f in (0, 4, 8):
+        for f in (0, 4, 10):
             yield 'js', dict(params=[['a', 'PK', False], ['b', 'KO', True]], frags=[f, 0], required=[], additional=None,
                              with_ctx=False, skip=False, style=style, draft=4)
     # schemas whose object-level constraints are stricter than the signature
